@@ -1819,10 +1819,16 @@ def gen_c11(tier, seed):
                 mixes.append("sched+sched")
             if tier != "quick" and shape == "join":
                 mixes.append("both-running")
+            if shape in ("chain2", "fork", "diamond"):
+                # a parent with two strategies of the SAME runtime on different resource types (seed C11-8: ordering rows
+                # emitted once per distinct parent runtime)
+                mixes.append("twin")
             for mix in mixes:
                 rt = {n: (3 if vi == 0 else rng.randint(1, 4)) for n in nodes}
                 alt = 5 if vi == 0 else rt["A"] + rng.randint(1, 3)
                 workers = [{"CPU": 2}] if (si + vi) % 2 == 0 else [{"CPU": 1}, {"CPU": 1}]
+                if mix == "twin":
+                    workers = [{"CPU": 2, "GPU": 1}] if (si + vi) % 2 == 0 else [{"CPU": 1, "GPU": 1}, {"CPU": 1}]
                 dl = now + 40
                 tasks = []
                 for n in nodes:
@@ -1833,6 +1839,8 @@ def gen_c11(tier, seed):
                         # (a SCHEDULED parent with a second, slower strategy: an earlier invocation chose the fast one, this
                         # invocation may re-plan it with the slow one - seed C11-5)
                         strat = [(rt[n], CPU1), (alt, CPU1)]
+                    if n == "A" and mix == "twin":
+                        strat = [(rt[n], CPU1), (rt[n], {"GPU": 1})]
                     if n == "A" and mix in ("running", "run+sched", "both-running"):
                         full = rt[n] + 3
                         tasks.append(T(n, g, dl, 0, [(full, CPU1)], "running",
@@ -2062,6 +2070,12 @@ def gen_c14(tier, seed):
         fams.append(("running-short", [{"CPU": 1}],
                      [T("R", "G0", now + 30, 0, [(10, CPU1)], "running", {"worker": 0, "strategy": 0, "start": max(0, now - 8)}),
                       T("X", "G1", now + 8, 0, [(3, CPU1)]), T("Y", "G2", now + 11, 0, [(3, CPU1)])], [], {}))
+        # a RUNNING task holds the whole worker for a short while; the offered task fits comfortably after it even when the
+        # planner charges the running task's full runtime from now on (seed C14-8: strategies tested against the capacity
+        # that is free right now)
+        fams.append(("running-full/loose", [{"CPU": 1}],
+                     [T("R", "G0", now + 30, 0, [(3, CPU1)], "running", {"worker": 0, "strategy": 0, "start": max(0, now - 1)}),
+                      T("X", "G1", now + 12, 0, [(2, CPU1)])], [], {}))
         fams.append(("pastdeadline", [{"CPU": 1}],
                      [T("A", "G1", max(0, now - 5), 0, [(3, CPU1)]), T("B", "G2", now + 9, 0, [(3, CPU1)])], [], {}))
         fams.append(("indep4/cap2", [{"CPU": 2}],
@@ -2136,14 +2150,14 @@ RULES = {
 BOUNDS = {
     "C11": "all DAG shapes <=4 nodes (chain2/3/4, fork, join, diamond, chain+independent) x predecessor new/RUNNING/"
            "SCHEDULED, child SCHEDULED by an earlier invocation below a RUNNING / SCHEDULED parent (built with the real Task.release/schedule/start/step) x release_taskgraphs/lookahead; 1-2 workers, "
-           "<=2 strategies; ILP, TetriSched-Gurobi, Z3; every feasible point of each captured model",
+           "<=2 strategies (also two strategies of the same runtime on different resource types); ILP, TetriSched-Gurobi, Z3; every feasible point of each captured model",
     "C10": "<=3 offered + <=2 running/scheduled tasks, <=2 workers (1-2 pools), <=2 strategies, resources CPU/GPU, future "
            "release with lookahead, chain with release_taskgraphs; ILP, TetriSched-Gurobi, TetriSched-CPLEX, Z3; every "
            "feasible point + run-level clauses on the returned optimum",
     "C12": "deadline in {now-5, now, now+1, now+r-1, now+r, now+r+1, now+r+2, loose}, 1-2 tasks, 1-2 strategies, "
            "contention, running blocker, two workers, a child offered alone after its parent completed, a SCHEDULED task decided again behind a running one; ILP (task-by-task), TetriSched-Gurobi, TetriSched-CPLEX with "
            "enforce_deadlines; every feasible point + returned optimum",
-    "C14": "<=4 offered tasks, <=2 workers, <=2 strategies, horizon <=12 slots, discretisation 1-3, running tasks, a future release inside the lookahead with zero slack, a deadline between the fastest and the slowest strategy, a second invocation of the same scheduler object without an explicit horizon; all "
+    "C14": "<=4 offered tasks, <=2 workers, <=2 strategies, horizon <=12 slots, discretisation 1-3, running tasks (also one that fills the worker while the offered task fits after it), a future release inside the lookahead with zero slack, a deadline between the fastest and the slowest strategy, a second invocation of the same scheduler object without an explicit horizon; all "
            "plans of the planner's own decision space enumerated by brute force with an independent feasibility function",
 }
 GENS = {"C10": gen_c10, "C11": gen_c11, "C12": gen_c12, "C14": gen_c14}
